@@ -45,6 +45,10 @@ struct Desc {
     variant: u8,
     /// "ok" | "otherkey" (signed by another key) | "othermsg" (signature of a different message)
     sig: String,
+    /// which epoch / chain the message's view names: 0 = this chain's epoch, 1 = a later epoch, 2 = an earlier epoch,
+    /// 3 / 4 = another genesis hash (greater / smaller as bytes). The queue keys on (sender, kind) and orders by the view
+    /// NUMBER only; the signature filter does not look at the epoch either.
+    world: u8,
 }
 
 fn poll_once<F: Future>(f: F) -> Option<F::Output> {
@@ -105,6 +109,8 @@ pub struct C16 {
     reference: RefQueue,
     case_ops: Vec<Value>,
     n_signed: usize,
+    /// genesis hashes of other chains: one that sorts below this chain's hash and one that sorts above it
+    other_genesis: (validator::GenesisHash, validator::GenesisHash),
 }
 
 impl C16 {
@@ -115,7 +121,14 @@ impl C16 {
         let mut keys = setup.validator_keys.clone();
         keys.push(rng.gen());
         let key_idx = keys.iter().enumerate().map(|(i, k)| (k.public(), i)).collect();
+        let mine = setup.genesis_hash();
+        let (mut below, mut above) = (None, None);
+        while below.is_none() || above.is_none() {
+            let h = validator::testonly::Setup::new(&mut rng, 1).genesis_hash();
+            if h < mine { below = Some(h); } else if h > mine { above = Some(h); }
+        }
         Self {
+            other_genesis: (below.unwrap(), above.unwrap()),
             ctx: Box::leak(Box::new(ctx::test_root(&ctx::RealClock))),
             keys,
             key_idx,
@@ -144,28 +157,40 @@ impl C16 {
         View { genesis: self.genesis, epoch: self.epoch, number: ViewNumber(n) }
     }
 
+    fn view_w(&self, n: u64, world: u8) -> View {
+        let mut v = self.view(n);
+        match world {
+            1 => v.epoch = validator::EpochNumber(self.epoch.0 + 2),
+            2 => v.epoch = validator::EpochNumber(self.epoch.0.saturating_sub(1)),
+            3 => v.genesis = self.other_genesis.1,
+            4 => v.genesis = self.other_genesis.0,
+            _ => {}
+        }
+        v
+    }
+
     fn body(&self, d: &Desc) -> ConsensusMsg {
         let v = d.variant;
         let m = match d.kind {
             0 => ChonkyMsg::LeaderProposal(LeaderProposal {
                 proposal_payload: Some(Payload(vec![v])),
                 // view() of a proposal / new-view is the justification's view + 1
-                justification: ProposalJustification::Timeout(TimeoutQC::new(self.view(d.view - 1))),
+                justification: ProposalJustification::Timeout(TimeoutQC::new(self.view_w(d.view - 1, d.world))),
             }),
             1 => ChonkyMsg::ReplicaCommit(ReplicaCommit {
-                view: self.view(d.view),
+                view: self.view_w(d.view, d.world),
                 proposal: BlockHeader { number: BlockNumber(v as u64), payload: Payload(vec![v]).hash() },
             }),
             2 => ChonkyMsg::ReplicaTimeout(ReplicaTimeout {
-                view: self.view(d.view),
+                view: self.view_w(d.view, d.world),
                 high_vote: (v % 2 == 1).then(|| ReplicaCommit {
-                    view: self.view(d.view.saturating_sub(1)),
+                    view: self.view_w(d.view.saturating_sub(1), d.world),
                     proposal: BlockHeader { number: BlockNumber(v as u64), payload: Payload(vec![v]).hash() },
                 }),
                 high_qc: None,
             }),
             _ => ChonkyMsg::ReplicaNewView(ReplicaNewView {
-                justification: ProposalJustification::Timeout(TimeoutQC::new(self.view(d.view - 1))),
+                justification: ProposalJustification::Timeout(TimeoutQC::new(self.view_w(d.view - 1, d.world))),
             }),
         };
         ConsensusMsg::V2(m)
@@ -210,6 +235,7 @@ impl C16 {
                 view: j["view"].as_u64().expect("view"),
                 variant: j["variant"].as_u64().unwrap_or(0) as u8,
                 sig: j["sig"].as_str().unwrap_or("ok").to_string(),
+                world: j["w"].as_u64().unwrap_or(0) as u8,
             },
         )
     }
@@ -614,6 +640,36 @@ impl Gen {
         let m = self.msg(sender, kind, view, sig);
         self.push(json!({"op": "send", "m": m}));
     }
+    /// a message whose view names another epoch / another chain (`w`, see `Desc::world`)
+    fn send_w(&mut self, sender: usize, kind: usize, view: u64, w: u8) {
+        let mut m = self.msg(sender, kind, view, "ok");
+        m["w"] = json!(w);
+        self.push(json!({"op": "send", "m": m}));
+    }
+    /// the freshest-by-view-NUMBER rule must not depend on the epoch or the genesis hash a view names: replayed or
+    /// early messages of another epoch / fork, validly signed by the same key, compete in the same slot
+    fn worlds(&mut self) {
+        let s = self.rng.gen_range(0..N_KEYS);
+        let o = (s + 1) % N_KEYS;
+        let k = self.rng.gen_range(0..4);
+        let hi = self.rng.gen_range(10..30u64);
+        let lo = self.rng.gen_range(1..hi - 2);
+        for (w_first, w_second) in [(0u8, 1u8), (0, 2), (1, 0), (2, 0), (0, 3), (0, 4), (3, 4), (1, 2)] {
+            // pending highest view, then a lower view of another world: the pending one must stay
+            self.send_w(s, k, hi, w_first);
+            self.send_w(s, k, lo, w_second);
+            self.send_w(o, k, lo, w_second);
+            self.drain();
+            // pending lower view, then a higher view of another world: the higher one must replace it
+            self.send_w(s, k, lo, w_first);
+            self.send_w(s, k, hi, w_second);
+            self.drain();
+            // equal numbers in different worlds: the pending one stays
+            self.send_w(s, k, hi, w_first);
+            self.send_w(s, k, hi, w_second);
+            self.drain();
+        }
+    }
     fn recv(&mut self) {
         self.push(json!({"op": "recv"}));
     }
@@ -649,7 +705,12 @@ impl Gen {
                 let k = self.rng.gen_range(0..4);
                 let v = base.saturating_add(self.rng.gen_range(0..vmax));
                 let sig = if self.rng.gen_range(0..100) < 12 { self.badsig() } else { "ok" };
-                self.send(s, k, v, sig);
+                if sig == "ok" && self.rng.gen_range(0..100) < 15 {
+                    let w = self.rng.gen_range(1..=4u8);
+                    self.send_w(s, k, v, w);
+                } else {
+                    self.send(s, k, v, sig);
+                }
             }
         }
         self.drain();
@@ -832,7 +893,7 @@ impl Prop for C16 {
         for i in 0..opts.n {
             g.start_case();
             // the first ten cases run every family once; afterwards weighted
-            let f = if i < 11 { i } else {
+            let f = if i < 12 { i } else if i % 16 == 13 { 11 } else {
                 match g.rng.gen_range(0..100) {
                     0..=39 => 0,
                     40..=47 => 1,
@@ -859,6 +920,7 @@ impl Prop for C16 {
                 7 => g.big_views(),
                 8 => g.empty(),
                 9 => g.conc(false, len),
+                11 => g.worlds(),
                 _ => g.conc(true, len),
             }
         }
